@@ -40,7 +40,8 @@ W_PIPE = ['W_NeedHit', 'W_NeedHitLonger', 'W_LocalOnlyRaise', 'W_EmptySearchRais
           'W_SignedInterestSent', 'W_TwoCaches', 'W_LocalOnlyCached']
 W_PIPE_BY_TREE = [['W_NeedHit', 'W_NeedHitLonger', 'W_LocalOnlyRaise', 'W_Decrypted', 'W_WrongKey', 'W_ValidationFailure',
                    'W_PolicyValidatorAcceptsBad', 'W_InterestHit', 'W_TwoCaches'],
-                  ['W_InterestDropped', 'W_InterestDecrypted', 'W_SignedInterestSent', 'W_LocalOnlyCached', 'W_ValidationFailure'],
+                  ['W_InterestDropped', 'W_InterestDecrypted', 'W_SignedInterestSent', 'W_LocalOnlyCached', 'W_ValidationFailure',
+                   'W_LocalOnlyNotSaved'],
                   ['W_EmptySearchRaise', 'W_NeedHit', 'W_Decrypted']]
 W_SEG = ['W_SegReassembled', 'W_SegFromCache', 'W_SegRetry', 'W_SegTimeout', 'W_SegInterestZero', 'W_LocalNeed']
 CLS = {'QFinerMatch': 'MatchedNode', 'Provide': 'MatchedNode', 'ProvideSeg': 'SegmentedNode', 'Need': 'MatchedNode',
@@ -305,7 +306,17 @@ class Queries:
             return ['QFinerMatch', n, new]
         if x < 0.8:
             return ['QExist', self.node_path(run), self.key()]
-        return ['QGetPolicy', self.node_path(run), rng.choice(K.PTYPES)]
+        # get_policy: mostly for a policy type that is somewhere on the node's own path
+        ws = run.walk()
+        path, node, _ = ws[rng.randrange(len(ws))]
+        types = set()
+        cur = run.root
+        for e in (None,) + tuple(path):
+            if e is not None:
+                cur = cur.children[K.comp_real((e[1], e[2]))] if e[0] == 'l' else cur.matches[(0, e[1])][1]
+            types |= {t for t, cls in K.PT.items() if cls in cur.policies}
+        ty = rng.choice(sorted(types)) if types and rng.random() < 0.8 else rng.choice(K.PTYPES)
+        return ['QGetPolicy', [list(e) for e in path], ty]
 
 
 def K_is_prefix(a, b):
@@ -375,22 +386,30 @@ def nontrivial(calls):
 
 
 def stage_b(ctx, recs):
+    import time
+    from concurrent.futures import ThreadPoolExecutor
     q = Queries(ctx.rng)
     graphs = []
     tb = dict(Keys='<- T_KeysSmall', PolChoices='<- T_Pol', MaxPol=1, RootPrefixes='<- T_RootPrefixes', QueryOn='FALSE')
     graphs.append(('T tree building', dict(tb, MaxNodes=2, MaxKeyLen=ctx.pick(1, 2)), 0.3))
-    reg = dict(Keys='<- R_Keys', PolChoices='<- R_Pol', AttachPrefixes='<- R_Prefixes', QNames='<- R_QNamesB', MaxOps=1,
-               QueryOn='FALSE')
-    graphs.append(('R registration', dict(reg, MaxPol=ctx.pick(1, 2), MaxNodes=ctx.pick(2, 3), MaxKeyLen=ctx.pick(1, 2)), 0.1))
+    if not ctx.quick:
+        graphs.append(('T tree building with SegmentedNode / LocalResource',
+                       dict(tb, Keys='<- S_Keys', Kinds='{"node", "seg", "local"}', RootPrefixes='<- None', MaxNodes=3, MaxKeyLen=1), 0.3))
+    reg = dict(Keys='<- R_Keys', PolChoices='<- R_Pol', AttachPrefixes='<- R_Prefixes', QNames='<- R_QNamesB', QueryOn='FALSE')
+    graphs.append(('R registration', dict(reg, MaxPol=ctx.pick(1, 2), MaxNodes=ctx.pick(2, 3), MaxKeyLen=ctx.pick(1, 2), MaxOps=ctx.pick(0, 1)), 0.1))
     for i, (trees, names) in enumerate((('P_Trees1', 'P_QNames1'), ('P_Trees2', 'P_QNames2'), ('P_Trees3', 'P_QNames3'))):
-        graphs.append(('P pipelines, tree %d' % (i + 1), pipe_consts(trees, names, ctx.pick(1, 2),
-                                                                    QueryOn='FALSE'), 0.1))
+        graphs.append(('P pipelines, tree %d' % (i + 1), pipe_consts(trees, names, ctx.pick(1, 2), QueryOn='FALSE',
+                                                                    net=ctx.pick('P_NetSmall', 'P_Net')), 0.1))
     graphs.append(('S segmented / local', pipe_consts('S_Trees', 'S_QNames', ctx.pick(1, 2), QueryOn='FALSE', seg='S_Contents',
                                                       contents='{"x"}', net='S_Net', ExtComps='<- None', AppParams='<- None'), 0.1))
-    import time
-    for n, (label, consts, pq) in enumerate(graphs):
-        t0 = time.time()
-        g = dump(cfg('x02-B-%d' % n, consts, ['TypeOK']), workers=4, tag='x02b')
+    t0 = time.time()
+    with ThreadPoolExecutor(max_workers=ctx.pick(6, 4)) as ex:
+        futs = [ex.submit(dump, cfg('x02-B-%d' % n, consts, ['TypeOK']), ctx.pick(2, 4), 'x02b%d' % n) for n, (label, consts, pq) in enumerate(graphs)]
+        dumped = [f.result() for f in futs]
+    if os.environ.get('X02_TIMING'):
+        print('   B: %d graphs dumped in %.1fs' % (len(graphs), time.time() - t0), flush=True)
+    brecs = []
+    for (label, consts, pq), g in zip(graphs, dumped):
         t1 = time.time()
         ctx.add_tlc('SchemaTree graph %s (%d states, %d edges)' % (label, len(g.state), g.n_edges), g.tlc)
         paths, left = state_cover_paths(g, 40, ctx.rng)
@@ -399,7 +418,7 @@ def stage_b(ctx, recs):
         steps = 0
         for init, dsts in paths:
             calls = [g.state[d]['call'] for d in dsts]
-            n_done, bad = replay_path(ctx, g, init, dsts, recs, q, pq)
+            n_done, bad = replay_path(ctx, g, init, dsts, brecs, q, pq)
             ctx.traces += 1
             ctx.evaluations += n_done
             steps += n_done
@@ -410,7 +429,14 @@ def stage_b(ctx, recs):
         ctx.sample({'kind': 'B-path', 'graph': label, 'calls': [to_json_call(g.state[d]['call']) for d in paths[-1][1][:8]]}, limit=3)
         ctx.note('B %s: %d states, %d edges, %d paths, %d actions replayed' % (label, len(g.state), g.n_edges, len(paths), steps))
         if os.environ.get('X02_TIMING'):
-            print('   B %s: dump %.1fs (TLC %.1fs) replay %.1fs' % (label, t1 - t0, g.tlc.wall, time.time() - t1), flush=True)
+            print('   B %s: TLC %.1fs replay %.1fs' % (label, g.tlc.wall, time.time() - t1), flush=True)
+    # the paths were compared with the TLC states directly; the trace judge is needed for the query calls sprinkled over them
+    withq = [r for r in brecs if any(e['call'][0].startswith('Q') for e in r['ev'])]
+    ctx.rng.shuffle(withq)
+    keep = withq[:ctx.pick(250, 6000)]
+    recs += keep
+    ctx.note('B: %d replayed paths carry query calls (%d calls); %d of them go to the trace judge' %
+             (len(withq), sum(1 for r in withq for e in r['ev'] if e['call'][0].startswith('Q')), len(keep)))
 
 
 def cfg_of_projection_of_state(st):
@@ -490,7 +516,11 @@ class Driver:
                 self.do(run, ev, ['SetItem', base, ks, kind])
             self.queries(run, ev, 0.4)
         for _ in range(rng.randint(0, 7 if self.big else 4)):
-            ty = rng.choice(K.PTYPES) if rng.random() < 0.6 else rng.choice(['Cache', 'Cache', 'Register', 'LocalOnly', 'DataEnc'])
+            used = sorted({t for _, nd, _ in run.walk() for t, cls in K.PT.items() if cls in nd.policies})
+            if used and rng.random() < 0.4:
+                ty = rng.choice(used)        # the same type again somewhere else: nesting / shadowing
+            else:
+                ty = rng.choice(K.PTYPES) if rng.random() < 0.6 else rng.choice(['Cache', 'Cache', 'Register', 'LocalOnly', 'DataEnc'])
             p = [] if rng.random() < 0.3 else self.q.node_path(run)
             if rng.random() < 0.06:
                 self.do(run, ev, ['SetPolicyWrong', p])
@@ -519,7 +549,17 @@ class Driver:
             x = rng.random()
             if pending and x < 0.65:
                 name, param, _, _ = K.enc.parse_interest(run.last_int)
-                ext = [self.q.comp()] if param.can_be_prefix and rng.random() < 0.4 else []
+                ext = []
+                if param.can_be_prefix and rng.random() < 0.5:
+                    ext = [self.q.comp()]
+                    try:        # mostly a component that leads further down the tree
+                        m = run.root.match([bytes(c) for c in name])
+                        opts = [K.comp_model(cb) for cb in m.node.children] + \
+                               [[k[1], rng.choice(self.q.VALS.get(k[1], ['0']))] for k in m.node.matches]
+                        if m.pos == len(name) and opts and rng.random() < 0.8:
+                            ext = [opts[rng.randrange(len(opts))]]
+                    except ValueError:
+                        pass
                 if len(name) == 0 and not ext:
                     self.do(run, ev, ['Fail', 'nack'])
                     continue
